@@ -9,7 +9,7 @@ Definition spec (rec : info -> graph -> res (graph * list call)) : Prop :=
   forall inf g g' tr, good g -> rec inf g = Ok (g', tr) -> same g' g.
 
 Definition linv (g0 : graph) (s : st) (queue : list N) : Prop :=
-  exists cs, inv g0 (s_g s) (s_ext s) (s_x s) (s_nears s) cs /\ qinv g0 (s_g s) cs queue.
+  exists cs, inv g0 (s_g s) (s_ext s) (s_x s) (s_nears s) cs /\ qinv g0 (s_g s) cs queue /\ near_f (s_g s).
 
 Lemma restore_geq sv g : geq g (restore sv g).
 Proof.
@@ -42,37 +42,38 @@ Section StepLemmas.
 
   (* ---- grid / sequence diagram: contents extracted ---- *)
   Lemma step_clear_inv s c gi q cs s' more :
-    inv g0 (s_g s) (s_ext s) (s_x s) (s_nears s) cs -> qinv g0 (s_g s) cs (t_id c :: q) ->
+    inv g0 (s_g s) (s_ext s) (s_x s) (s_nears s) cs -> qinv g0 (s_g s) cs (t_id c :: q) -> near_f (s_g s) ->
     find_f (t_id c) (g_roots (s_g s)) = Some c -> find_f (t_id c) (g_roots g0) = Some c ->
     (forall d, In d cs -> ~ In d (tids c)) -> i_near gi = false ->
     step_special rec c gi s = Ok (s', more) -> linv g0 s' (q ++ more).
   Proof.
-    intros I Q Hf Hf0 Hno Hn. unfold step_special. rewrite Hn.
+    intros I Q NF Hf Hf0 Hno Hn. unfold step_special. rewrite Hn.
     destruct (rec gi (ex_ng c false (s_g s))) as [[ng' tr]| | |] eqn:R; try discriminate.
     intro E. inversion E; subst s' more. clear E. rewrite app_nil_r.
-    pose proof (Hrec gi _ ng' tr (ex_ng_good_kids g0 (s_g s) _ _ _ _ G0 I c Hf Hf0) R) as S.
-    exists (cs ++ [t_id c]). simpl. split.
+    pose proof (Hrec gi _ ng' tr (ex_ng_good_kids g0 (s_g s) _ _ _ _ G0 I c NF Hf Hf0) R) as S.
+    exists (cs ++ [t_id c]). simpl. split; [|split].
     - apply inv_clear; assumption.
     - eapply qinv_clear; eassumption.
+    - apply near_f_clear. exact NF.
   Qed.
 
   (* ---- constant near: extracted with its container ---- *)
   Lemma step_near_inv s c gi q cs s' more :
-    inv g0 (s_g s) (s_ext s) (s_x s) (s_nears s) cs -> qinv g0 (s_g s) cs (t_id c :: q) ->
+    inv g0 (s_g s) (s_ext s) (s_x s) (s_nears s) cs -> qinv g0 (s_g s) cs (t_id c :: q) -> near_f (s_g s) ->
     find_f (t_id c) (g_roots (s_g s)) = Some c -> find_f (t_id c) (g_roots g0) = Some c ->
     (forall d, In d cs -> ~ In d (tids c)) -> i_near gi = true -> is_some (k_near (t_kind c)) = true ->
     step_special rec c gi s = Ok (s', more) -> linv g0 s' (q ++ more).
   Proof.
-    intros I Q Hf Hf0 Hno Hn Hk. unfold step_special. rewrite Hn.
+    intros I Q NF Hf Hf0 Hno Hn Hk. unfold step_special. rewrite Hn.
     set (g := s_g s) in *.
     pose proof (inv_nd g0 g _ _ _ _ G0 I) as ND.
     pose proof (inv_nd_objs g0 g _ _ _ _ G0 I) as NDO.
     pose proof (find_f_NoDup _ _ _ ND Hf) as NDc.
-    destruct (root_near_find _ _ _ (iv_near_f _ _ _ _ _ _ I) Hf) as [Hroot Hkids].
+    destruct (root_near_find _ _ _ NF Hf) as [Hroot Hkids].
     assert (Hin : In c (g_roots g)).
     { destruct Hroot as [H|H]; [exact H|]. apply no_near_kind in H. rewrite H in Hk. discriminate. }
     assert (Hcl : exists cl, k_near (t_kind c) = Some cl /\ (cl < 3)%N).
-    { pose proof (iv_near_f _ _ _ _ _ _ I) as H. rewrite forallb_forall in H. specialize (H c Hin).
+    { pose proof NF as H. unfold near_f in H. rewrite forallb_forall in H. specialize (H c Hin).
       unfold root_near_ok in H. apply andb_true_iff in H as [H _]. destruct (k_near (t_kind c)) as [cl|]; [|discriminate].
       exists cl. split; [reflexivity | apply N.ltb_lt; exact H]. }
     assert (Incc : incl (tids c) (fids (g_roots g))) by (apply find_f_some in Hf as [_ Inc]; exact Inc).
@@ -91,24 +92,25 @@ Section StepLemmas.
     pose proof (Hrec default_info _ ng' tr Gin R) as [SL SR SO SE]. simpl in SR, SO, SE.
     rewrite SR. intro E. inversion E; subst s' more. clear E. rewrite app_nil_r.
     rewrite set_near_back.
-    exists cs. simpl. split.
+    exists cs. simpl. split; [|split].
     - apply inv_remove; try assumption; reflexivity.
     - eapply qinv_remove; eassumption.
+    - apply (near_f_remove g0 g _ _ _ _ G0 I c Hin NF).
   Qed.
 
   (* ---- a grid cell that is an ordinary container ---- *)
   Lemma step_cell_inv sv s c q cs s' more :
-    inv g0 (s_g s) (s_ext s) (s_x s) (s_nears s) cs -> qinv g0 (s_g s) cs (t_id c :: q) ->
+    inv g0 (s_g s) (s_ext s) (s_x s) (s_nears s) cs -> qinv g0 (s_g s) cs (t_id c :: q) -> near_f (s_g s) ->
     find_f (t_id c) (g_roots (s_g s)) = Some c -> find_f (t_id c) (g_roots g0) = Some c ->
     (forall d, In d cs -> ~ In d (tids c)) -> In c (g_roots (s_g s)) ->
     step_cell rec sv c s = Ok (s', more) -> linv g0 s' (q ++ more).
   Proof.
-    intros I Q Hf Hf0 Hno Hin. unfold step_cell.
+    intros I Q NF Hf Hf0 Hno Hin. unfold step_cell.
     set (g := s_g s) in *.
     pose proof (inv_nd g0 g _ _ _ _ G0 I) as ND.
     pose proof (inv_nd_objs g0 g _ _ _ _ G0 I) as NDO.
     pose proof (find_f_NoDup _ _ _ ND Hf) as NDc.
-    destruct (root_near_find _ _ _ (iv_near_f _ _ _ _ _ _ I) Hf) as [_ Hkids].
+    destruct (root_near_find _ _ _ NF Hf) as [_ Hkids].
     assert (Incc : incl (tids c) (fids (g_roots g))) by (apply find_f_some in Hf as [_ Inc]; exact Inc).
     assert (Gin : good (ex_ng c true g)).
     { constructor.
@@ -118,7 +120,7 @@ Section StepLemmas.
       - simpl. apply sibs_ok_single. apply sibs_t_of_kids. eapply sibs_find; [apply (gd_sibs g0 G0) | exact Hf0].
       - apply (ex_ng_ends g0 g _ _ _ _ I c true).
       - apply (ex_ng_trip g0 g _ _ _ _ G0 I c true).
-      - simpl. pose proof (iv_near_f _ _ _ _ _ _ I) as H. rewrite forallb_forall in H. rewrite (H c Hin). reflexivity. }
+      - simpl. pose proof NF as H. unfold near_f in H. rewrite forallb_forall in H. rewrite (H c Hin). reflexivity. }
     destruct (rec default_info (ex_ng c true g)) as [[ng' tr]| | |] eqn:R; try discriminate.
     pose proof (Hrec default_info _ ng' tr Gin R) as [SL SR SO SE]. simpl in SR, SO, SE.
     set (g2 := inject_root ng' (ex_rem c true g)).
@@ -159,7 +161,7 @@ Section StepLemmas.
     { rewrite <- (find_f_perm (t_id c) _ _ ND (ge_roots _ _ GE4)). exact Hf. }
     rewrite Hf4. intro E. inversion E; subst s' more. clear E. rewrite app_nil_r.
     assert (Q4 : qinv g0 g4 cs (t_id c :: q)) by (eapply qinv_geq; [exact ND | apply (ge_roots _ _ GE4) | exact Q]).
-    exists (cs ++ [t_id c]). simpl. split.
+    exists (cs ++ [t_id c]). simpl. split; [|split].
     - pose proof (inv_clear g0 g4 _ _ _ _ G0 I4 c (ex_ng c false g4) Hf4 Hno
                             (mkSame _ _ eq_refl eq_refl eq_refl eq_refl)) as IC.
       assert (Ek : absid (ex_rem c false g4) (t_id c) = path0 g0 (t_id c)).
@@ -168,5 +170,6 @@ Section StepLemmas.
         apply app_inj_tail in El as [_ El]. subst pe. exact A. }
       rewrite Ek in IC. exact IC.
     - eapply qinv_clear; eassumption.
+    - apply near_f_clear. eapply near_f_geq; eassumption.
   Qed.
 End StepLemmas.
